@@ -1288,7 +1288,10 @@ sse_rule_convssslw (OrcCompiler *p, void *user, OrcInstruction *insn)
   const int src = p->vars[insn->src_args[0]].alloc;
   const int dest = p->vars[insn->dest_args[0]].alloc;
 
-  orc_sse_emit_packssdw (p, src, dest);
+  if (src != dest) {
+    orc_sse_emit_movdqa (p, src, dest);
+  }
+  orc_sse_emit_packssdw (p, dest, dest);
 }
 
 #ifndef MMX
@@ -1298,7 +1301,10 @@ sse_rule_convsuslw (OrcCompiler *p, void *user, OrcInstruction *insn)
   const int src = p->vars[insn->src_args[0]].alloc;
   const int dest = p->vars[insn->dest_args[0]].alloc;
 
-  orc_sse_emit_packusdw (p, src, dest);
+  if (src != dest) {
+    orc_sse_emit_movdqa (p, src, dest);
+  }
+  orc_sse_emit_packusdw (p, dest, dest);
 }
 #endif
 
